@@ -23,12 +23,13 @@ type params struct {
 	twice     bool   // fail in the first two incarnations
 	hookFail  string // none | prerestart | restarted
 	slowDec   bool   // the supervisor's decision maker answers only after the failed child has been killed by somebody else
+	combo     bool   // the actor is built with vivid.NewComplexCombinationActor: [a Prelaunch part that carries the scripted failure, the scripted actor, a Prelaunch part that always succeeds]
 	lateSpawn bool   // an outside goroutine spawns a top-level actor while the system is being stopped
 	watch     string // none | b-dies-first: b watches a, b is killed, then a is killed (a's notification finds a dead watcher)
 }
 
 func (p params) name() string {
-	return fmt.Sprintf("site=%s/%s/dec=%s/prov=%v/become=%v/kill=%s/prelaunch=%s/twice=%v/hook=%s", p.site, p.cause, p.decision.String(), p.provider, p.become, p.kill, p.prelaunch, p.twice, p.hookFail) + map[bool]string{true: "/late-spawn", false: ""}[p.lateSpawn] + map[bool]string{true: "/slow-decision", false: ""}[p.slowDec] + map[bool]string{true: "/watch=" + p.watch, false: ""}[p.watch != "" && p.watch != "none"]
+	return fmt.Sprintf("site=%s/%s/dec=%s/prov=%v/become=%v/kill=%s/prelaunch=%s/twice=%v/hook=%s", p.site, p.cause, p.decision.String(), p.provider, p.become, p.kill, p.prelaunch, p.twice, p.hookFail) + map[bool]string{true: "/combination-actor", false: ""}[p.combo] + map[bool]string{true: "/late-spawn", false: ""}[p.lateSpawn] + map[bool]string{true: "/slow-decision", false: ""}[p.slowDec] + map[bool]string{true: "/watch=" + p.watch, false: ""}[p.watch != "" && p.watch != "none"]
 }
 
 func fail(ctx vivid.ActorContext, cause string) {
@@ -95,12 +96,27 @@ func scenario(p params, bounds []int) *vexp.Scenario {
 					}
 				}
 			}
-			if p.prelaunch != "none" {
+			if p.prelaunch != "none" && !p.combo {
 				a.Prelaunch = func(n int) error {
 					if (p.prelaunch == "spawn" && n == 0) || (p.prelaunch == "restart" && n == 1) {
 						return errors.New("scripted prelaunch failure")
 					}
 					return nil
+				}
+			}
+			if p.combo {
+				calls := 0
+				a.Wrap = func(inner vivid.Actor) vivid.Actor {
+					failing := vivid.NewPrelaunchActor(func(vivid.PrelaunchContext) error {
+						n := calls
+						calls++
+						if (p.prelaunch == "spawn" && n == 0) || (p.prelaunch == "restart" && n == 1) {
+							return errors.New("scripted prelaunch failure of the first part")
+						}
+						return nil
+					})
+					fine := vivid.NewPrelaunchActor(func(vivid.PrelaunchContext) error { return nil })
+					return vivid.NewComplexCombinationActor(failing, inner, fine)
 				}
 			}
 			switch p.hookFail {
@@ -320,6 +336,17 @@ func build(tier string) []*vexp.Scenario {
 		q.lateSpawn = true
 		out = append(out, scenario(q, []int{0, 1, 2}))
 		out = append(out, vexp.Fine(scenario(q, []int{0, 1}), "vivid/internal/actor.", "vivid/internal/mailbox."))
+	}
+	// the same prelaunch failures with the actor assembled from parts (public helper API): a failure of the first part counts
+	for _, pl := range []string{"spawn", "restart"} {
+		for _, d := range []vivid.SupervisionDecision{vivid.SupervisionDecisionRestart, vivid.SupervisionDecisionGracefulRestart} {
+			q := base
+			q.site, q.decision, q.prelaunch, q.combo = "msg", d, pl, true
+			if pl == "spawn" {
+				q.site = "none"
+			}
+			out = append(out, scenario(q, bounds))
+		}
 	}
 	// prelaunch failures
 	p := base
